@@ -24,8 +24,8 @@ func init() {
 		{Pkg: fw, Func: "(*GetMetadataResponse).HasCapability"},
 		// the plugin: an opaque value; its commands are oracles (one function for every plugin value)
 		{Pkg: fw, Type: "SignPlugin", Opaque: true},
-		{Pkg: fw, Func: "SignPlugin.DescribeKey", Oracle: true},
-		{Pkg: fw, Func: "SignPlugin.GenerateSignature", Oracle: true},
+		{Pkg: fw, Func: "SignPlugin.DescribeKey", Oracle: true, AnyReceiver: true},
+		{Pkg: fw, Func: "SignPlugin.GenerateSignature", Oracle: true, AnyReceiver: true},
 		{Pkg: fw, Func: "SignPlugin.GetMetadata", Oracle: true},
 		// key id echo, nil answers, key spec decoding (clauses 7, 8, 10)
 		{Pkg: ".../signer", Func: "(*PluginSigner).describeKey"},
